@@ -9,6 +9,11 @@ import (
 	"verif/engine/ev"
 )
 
+// decoyXor: channel perturbations that leave r<<16^g<<8^b, r+g+b-style and
+// byte-truncating keys unchanged (a bit moved into the neighbouring channel's
+// byte, low bytes only, high bytes only).
+var decoyXor = [][3]uint16{{0, 1, 0x100}, {1, 0x100, 0}, {0x100, 0, 0}, {0, 0x100, 0}, {0, 0, 0x100}, {1, 0x101, 0x100}, {0x00FF, 0, 0}, {0, 0x00FF, 0xFF00}, {0x8000, 0x80, 0}, {2, 0x200, 0}}
+
 // customColour is a colour type the library cannot know.
 type customColour struct{ r, g, b uint32 }
 
@@ -135,6 +140,20 @@ func C01(tier string) {
 					color.NRGBA64{R: uint16(v), G: uint16(g), B: uint16(b), A: 65535},
 					color.RGBA64{R: uint16(v), G: uint16(g), B: uint16(b), A: 65535},
 				} {
+					// a decoy call with a colour that collides with col under common
+					// lossy packings (r<<16^g<<8^b and friends) goes first, so a
+					// "last colour" memo cannot answer for col
+					{
+						x := decoyXor[(v+k)%len(decoyXor)]
+						var decoy color.Color
+						if k == 0 {
+							decoy = color.NRGBA64{R: uint16(v) ^ x[0], G: uint16(g) ^ x[1], B: uint16(b) ^ x[2], A: 65535}
+						} else {
+							decoy = color.RGBA64{R: uint16(v) ^ x[0], G: uint16(g) ^ x[1], B: uint16(b) ^ x[2], A: 65535}
+						}
+						_, _ = sp.FromEncodedColor(decoy)
+						_ = sp.Linearise(decoy)
+					}
 					c6, a6 := sp.FromEncodedColor(col)
 					r.Eval(1)
 					name := [...]string{"ColorFromEncodedColor(NRGBA64)", "ColorFromEncodedColor(RGBA64)"}[k]
